@@ -405,7 +405,7 @@ func genCase(seed uint64, idx int) (*c08case, error) {
 	if err != nil {
 		return nil, err
 	}
-	c := &c08case{Kind: "diff", Class: "chain", Cfg: []string{"v1", "v2"}[idx%2], Builder: idx%8 == 1, FileA: hlib.Ints(cur)}
+	c := &c08case{Kind: "diff", Class: "chain", Cfg: []string{"v1", "v2"}[idx%2], Builder: idx%8 == 1 || idx%8 == 4, FileA: hlib.Ints(cur)}
 	nsteps := 1 + r.Intn(5)
 	freshDone := false
 	for s := 0; s < nsteps; s++ {
